@@ -435,9 +435,27 @@ class Interp:
         # --- streams
         elif op in ('qput', 'cput'):
             s = (self.queues if op == 'qput' else self.channels)[st['s']]
+            pending = None
+            if st.get('defer') is not None:
+                # the operation is prepared first and performed later (as in `scope.do(queue.put(x), after=...)`):
+                # what counts is the state of the stream when it is performed
+                try:
+                    pending = s.put(st['v'])
+                except StreamClosed:
+                    ev(name, idx, 'put_begin', st['v'])
+                    ev(name, idx, 'put_refused', st['v'])
+                    return None
+                try:
+                    if st['defer']:
+                        await (time + num(st['defer']))
+                    else:
+                        await instant
+                except BaseException:
+                    pending.close()
+                    raise
             ev(name, idx, 'put_begin', st['v'])
             try:
-                await s.put(st['v'])
+                await (pending if pending is not None else s.put(st['v']))
             except StreamClosed:
                 ev(name, idx, 'put_refused', st['v'])
             else:
